@@ -81,8 +81,6 @@ func (r *region[R]) open(cfg GateConfig[R]) (g *Gate[R], t Transfer, err error) 
 	}
 
 	// Expand the time range to include the new gate's time range.
-	r.timeRange = r.timeRange.Union(cfg.TimeRange)
-
 	// If no one is in control or this gate has a higher authority, take control.
 	if r.curr == nil || g.authority > r.curr.authority {
 		if r.curr != nil {
@@ -100,6 +98,8 @@ func (r *region[R]) open(cfg GateConfig[R]) (g *Gate[R], t Transfer, err error) 
 		g = nil
 		return
 	}
+	// Only a gate that was actually admitted widens the region.
+	r.timeRange = r.timeRange.Union(cfg.TimeRange)
 	r.gates.Add(g)
 	r.counter++
 	return g, t, nil
